@@ -407,16 +407,22 @@ func (d *devMod) runOps(ops []DevOp, respond func(string) io.Writer, yield func(
 			}
 			// like io.Copy, the module writes from a buffer of its own that it reuses at once:
 			// a Writer must not retain the slice it was given
-			buf := append(d.scratch[:0], rest[:n]...)
+			// (the next part, or the scribble after the message, overwrites the buffer); small
+			// parts are written directly so that the sub-microsecond spacing the schedule search
+			// of the streams sub relies on is not disturbed
+			buf := rest[:n]
+			if n >= 256 {
+				buf = append(d.scratch[:0], rest[:n]...)
+				d.scratch = buf
+			}
 			if _, err := wr.Write(buf); err != nil {
 				d.w.problem("device module %s: write of %q failed: %v", d.name, name, err)
 			}
-			for i := range buf {
-				buf[i] = ^buf[i]
-			}
-			d.scratch = buf
 			rest = rest[n:]
 			d.w.spin()
+		}
+		for i := range d.scratch {
+			d.scratch[i] = ^d.scratch[i]
 		}
 		d.mu.Lock()
 		d.Sent = append(d.Sent, rec{name, payload})
